@@ -162,8 +162,38 @@ def run(rep, tier, seed):
     # GLR on a long, highly ambiguous input is polynomially slow, not hanging: re-run every timeout outside the known
     # classes alone with a 60 s budget (LR timeouts are compared with the model's own fuel outcome instead)
     slow = lf.confirm_timeouts(glr, skip=lambda c, k: known_class(c, k, "timeout") is not None)
+    traced(rep, lr, glr)
     rep.counters["timeouts_that_were_only_slow(3s watchdog, finished within 60s)"] = slow
     check(rep, lr, glr, proofs_ok)
+
+
+def traced(rep, lr, glr):
+    """the same parsers with tracing ON (`RUSTEMO_TRACE`, the documented `Settings::trace`; debug build): the trace code formats
+    tokens, heads and the input context around the position, on every step - it must not panic either. Outcome class only."""
+    import common
+    sel = [c for c in lr + glr if c.dump is not None and (c.tag.startswith("corpus:") and c.tag not in ("corpus:cyclic", "corpus:emptyre"))]
+    sel += [c for c in lr + glr if c.dump is not None and c.tag.startswith("bnf")][:24]
+    cs = []
+    for c in sel:
+        ins = [i for i, r in zip(c.inputs, c.results) if "@" not in i[0] and len(i[2]) <= 120 and lf.klass(r) in ("ok", "err")][:30]
+        if ins:
+            t = lf.Case(c.text, list(c.settings), ins, gram=c.gram, tag="traced:" + c.tag)
+            t.max_trees = 0
+            cs.append(t)
+    common.VDYN_EXTRA_ENV["RUSTEMO_TRACE"] = "1"
+    try:
+        lf.run_cases(cs, model=False)
+    finally:
+        common.VDYN_EXTRA_ENV.pop("RUSTEMO_TRACE", None)
+    n = 0
+    for c in cs:
+        for k, res in enumerate(c.results):
+            kl = lf.klass(res)
+            rep.count("traced:" + kl)
+            if kl == "panic" and n < 3 and len(rep.violations) < 3:
+                n += 1
+                rep.violation(dict(c.describe(k), kind="impl!=oracle", why="with tracing on (RUSTEMO_TRACE) the parse panics: " + res[:200],
+                                   tracing="RUSTEMO_TRACE=1"))
 
 
 def check(rep, lr, glr, proofs_ok):
@@ -253,5 +283,15 @@ def replay(rep, path):
     c = lf.Case(p["grammar"], p["settings"].split(" "), [(algo, p.get("partial", "0"), p.get("input", ""), {})], gram=None)
     glr = algo.startswith("GLR")
     lf.apply_replay_history(c, p)
+    if p.get("tracing"):
+        import common
+        common.VDYN_EXTRA_ENV["RUSTEMO_TRACE"] = "1"
+        try:
+            lf.run_cases([c], model=False)
+        finally:
+            common.VDYN_EXTRA_ENV.pop("RUSTEMO_TRACE", None)
+        if lf.klass(c.results[0]) == "panic":
+            rep.violation(dict(c.describe(0), kind="impl!=oracle", why="with tracing on the parse panics: " + c.results[0][:200], tracing="RUSTEMO_TRACE=1"))
+        return
     lf.run_cases([c], model=not glr, extra_requests=None if glr else (lambda c: LR_CERTS))
     check(rep, [] if glr else [c], [c] if glr else [], True)
